@@ -46,16 +46,25 @@ MANIFEST = {
             "apply_timestep / _start_up_actions / _shut_down_actions are translated statement by statement (helper methods of Node inlined, "
             "all()/any() over the interfaces with their short-circuit semantics) and proved, for every node, to compute exactly the model's "
             "powerOn / powerOff / reset / tickDown∘tickUp / actions (node afterwards incl. every operating_state assignment, and the answer); "
-            "a rewrite that keeps the meaning re-proves, one that does not breaks the theorem and a counter-model search prints a node. "
+            "a rewrite that keeps the meaning re-proves, one that does not breaks the theorem and a counter-model search prints the "
+            "differing node closest to a fresh one, which is replayed on the real code at once (shortest request sequence); "
+            "(16) the interfaces' own enable()/disable() (Wired-, IPWired-, Wireless-, IPWirelessNetworkInterface) are translated too "
+            "(local variables, super(), a dereference of a missing node/link raises) and proved for EVERY interface, node or no node, "
+            "every node state, link or no link: enable is the model's Nic.enable (refuses unless the node is ON / a link is attached), "
+            "never raises, answers as the model says; disable always clears and answers True; "
+            "(17) every route registered at RUN TIME (application installed by request, software installed by the software manager, "
+            "interface connected later) goes into a manager that hangs under a node-level edge with the node-is-on validator "
+            "(regenerated list of registration sites; a registration on the node's own manager is refused by the extractor), hence a "
+            "node that is not ON refuses whatever is sent below it, for every node class. "
             "Tie: Gen/PowerProg.lean (the translated bodies) + Gen/Power.lean (enum, defaults, "
-            "guarded statement lists of apply_timestep and pre_timestep, interface guards and "
-            "every enable/disable definition, validators, route tables per class, inventories of every class below Node and "
+            "guarded statement lists of apply_timestep and pre_timestep, the inventory of "
+            "every enable/disable definition, run-time route registration sites, validators, route tables per class, inventories of every class below Node and "
             "NetworkInterface, the power-relevant statements of constructors/loader/set-up, every power_on/power_off call site, "
             "software guards) + Gen/RequestSchema.lean (C05x's schematic request tree) + differential rig R-node: bounded-exhaustive "
             "and random request/tick/ping sequences on two hosts, on a six-class network, and with a node of EVERY instantiable class "
             "under test between peers; direct API calls, run-time duration changes, negative and huge durations; whole power cycles "
             "from assorted software states; whole power cycles for EVERY placement of the links on the ports of a switch / router / "
-            "firewall (and plugged / unplugged hosts and wireless routers), also after an interface was disabled by request; scenario dictionaries with every declared state through PrimaiteGame.from_config and "
+            "firewall (and plugged / unplugged hosts and wireless routers), also after an interface was disabled by request; an application of every registered class installed at run time (by request / by the software manager) on a computer and a server, the node then OFF / SHUTTING_DOWN / BOOTING and every leaf of its live request tree sent; scenario dictionaries with every declared state through PrimaiteGame.from_config and "
             "setup_for_episode; user-session time-outs across power changes. Compared after every operation: the response, every "
             "operating_state assignment, the whole modelled state, and per tick which sub-component pre_timestep/apply_timestep calls "
             "the node made; implementation-side oracles for frames passing an interface of a non-ON node, enabled interfaces / "
